@@ -25,10 +25,24 @@ type chanState struct {
 var chans = map[any]*chanState{}
 var chansWorld *sched.World
 
+// A select statement chooses its case and performs the communication in one
+// atomic step.  Select() only chooses; the receive itself happens in the case
+// clause (RecvNow), after the channel expression has been evaluated again -
+// and with R6 that evaluation is a possible preemption point.  The element the
+// choice was based on is therefore set aside for the choosing task at the
+// moment of the choice, and taken from there by its RecvNow.
+type reservation struct {
+	key any
+	v   any
+}
+
+var reserved = map[*sched.Task]*reservation{}
+
 func table(w *sched.World) map[any]*chanState {
 	if chansWorld != w {
 		chansWorld = w
 		chans = map[any]*chanState{}
+		reserved = map[*sched.Task]*reservation{}
 	}
 	return chans
 }
@@ -103,6 +117,12 @@ func SendNow[T any](ch chan<- T, v T) {
 }
 
 func takeNow[T any](w *sched.World, ch <-chan T) (T, bool) {
+	table(w)
+	if r := reserved[w.CurTask()]; r != nil && r.key == chanKey(ch) {
+		delete(reserved, w.CurTask())
+		w.Acquire(chanKey(ch))
+		return r.v.(T), true
+	}
 	if st := stateOf(w, ch, false); st != nil {
 		if len(st.buf) > 0 {
 			v := st.buf[0].(T)
@@ -214,6 +234,7 @@ func Select(hasDefault bool, cases ...Case) int {
 		}
 	}
 	chosen := -1
+	self := w.CurTask()
 	w.Yield(&sched.Op{Kind: "select", Path: fmt.Sprintf("%d cases", len(cases)), Block: false,
 		Enabled: func() bool { return hasDefault || len(readyIdx()) > 0 },
 		Prepare: func() {
@@ -224,6 +245,10 @@ func Select(hasDefault bool, cases ...Case) int {
 			chosen = r[w.Src.Intn(len(r))]
 			if !cases[chosen].send {
 				w.ChanPrepare(chanKey(cases[chosen].ch))
+				if st := stateOf(w, cases[chosen].ch, false); st != nil && len(st.buf) > 0 {
+					reserved[self] = &reservation{key: chanKey(cases[chosen].ch), v: st.buf[0]}
+					st.buf = st.buf[1:]
+				}
 			}
 		}})
 	for _, c := range cases {
